@@ -44,9 +44,12 @@ type scanner struct {
 	eexec int // 0 = off, 1 = ascii, 2 = binary
 	r     uint16
 
-	// Err is the first error returned by r.Read().
-	// Once an error has been returned, all subsequent calls to .refill() will
-	// return err.
+	// srcErr is the first error returned by src.Read().  Once the bytes
+	// delivered together with it are used up, every call to .refill()
+	// returns it.
+	srcErr error
+
+	// err is srcErr, from the moment it has been returned to a caller.
 	err error
 }
 
@@ -630,6 +633,7 @@ func (s *scanner) readByteRaw() (byte, error) {
 	for s.pos >= s.used {
 		err := s.refill()
 		if err != nil {
+			s.err = err
 			return 0, err
 		}
 	}
@@ -641,8 +645,8 @@ func (s *scanner) readByteRaw() (byte, error) {
 }
 
 func (s *scanner) refill() error {
-	if s.err != nil {
-		return s.err
+	if s.srcErr != nil {
+		return s.srcErr
 	}
 	s.used = copy(s.buf, s.buf[s.pos:s.used])
 	s.pos = 0
@@ -650,7 +654,7 @@ func (s *scanner) refill() error {
 	n, err := s.src.Read(s.buf[s.used:])
 	s.used += n
 	if err != nil {
-		s.err = err
+		s.srcErr = err
 	}
 	if n > 0 {
 		err = nil
